@@ -171,7 +171,7 @@ def rule_history_fields(ctx):
                       and unparse(gens[1].iter) == f"order.get({m}, {m})"
                       and unparse(gens[2].iter) == f"self.values_orders[feature].get({g}, {g})"
                       and unparse(inner.elt) == v
-                      and [unparse(c).replace(" ", "") for c in gens[2].ifs + gens[1].ifs + gens[0].ifs] == [f"asso['index_to_groupby'][{m}]==final_group"])
+                      and [cmp_canon(c) for c in gens[2].ifs + gens[1].ifs + gens[0].ifs] in ([(f"asso['index_to_groupby'][{m}]", "==", "final_group")], [("final_group", "==", f"asso['index_to_groupby'][{m}]")]))
     ctx.ob(R, construct(fh, "a historized group lists the raw values of its modalities: labels-level members first, then their raw values"), ok, loc(fh),
            "" if ok else "expanding through values_orders before the carving order loses the raw values of modalities merged at an earlier step")
 
